@@ -155,6 +155,10 @@ def run_property(pid: str, tier: str, only: Optional[str] = None, jobs: int = 10
     # long obligations first
     order.sort(key=lambda o: -o.timeout)
     findings = load_known_findings()
+    if not only:
+        import shutil
+
+        shutil.rmtree(os.path.join(ROOT, 'replays', pid), ignore_errors=True)
     scale = float(os.environ.get('VERIF_TIMEOUT_SCALE', '1'))
 
     state: Dict[str, Dict[str, Any]] = {}
